@@ -95,7 +95,8 @@ fn core_vs_wrapper(ctx: &Ctx, t: &mut Tape<'_>, r: &mut Report) -> CheckResult {
     let f = suite.stream(kind).unwrap();
     let bs = suite.info.bs;
     let key = gen_key(t, suite);
-    let iv = gen_iv(t, bs);
+    let c = (suite.keyed)(&key);
+    let iv = gen_stream_iv(t, kind, bs, c.as_ref(), suite.info.has_dec);
     let n = gen_nblocks(t, suite.info.par, 16);
     let extra = if t.chance(96) { t.idx(bs) } else { 0 };
     let data = tape::gen_bytes(t, n * bs + extra);
